@@ -370,6 +370,10 @@ impl Mapper<Size1GiB> for RecursivePageTable<'_> {
         if p3[page.p3_index()].is_unused() {
             return Err(FlagUpdateError::PageNotMapped);
         }
+        // the entry must be a 1GiB mapping, not a pointer to a level 2 table
+        if !p3[page.p3_index()].flags().contains(Flags::HUGE_PAGE) {
+            return Err(FlagUpdateError::ParentEntryHugePage);
+        }
         p3[page.p3_index()].set_flags(flags | Flags::HUGE_PAGE);
 
         Ok(MapperFlush::new(page))
@@ -420,6 +424,10 @@ impl Mapper<Size1GiB> for RecursivePageTable<'_> {
 
         if p3_entry.is_unused() {
             return Err(TranslateError::PageNotMapped);
+        }
+        // the entry must be a 1GiB mapping, not a pointer to a level 2 table
+        if !p3_entry.flags().contains(PageTableFlags::HUGE_PAGE) {
+            return Err(TranslateError::ParentEntryHugePage);
         }
 
         PhysFrame::from_start_address(p3_entry.addr())
@@ -510,6 +518,10 @@ impl Mapper<Size2MiB> for RecursivePageTable<'_> {
         if p2[page.p2_index()].is_unused() {
             return Err(FlagUpdateError::PageNotMapped);
         }
+        // the entry must be a 2MiB mapping, not a pointer to a level 1 table
+        if !p2[page.p2_index()].flags().contains(Flags::HUGE_PAGE) {
+            return Err(FlagUpdateError::ParentEntryHugePage);
+        }
 
         p2[page.p2_index()].set_flags(flags | Flags::HUGE_PAGE);
 
@@ -583,6 +595,10 @@ impl Mapper<Size2MiB> for RecursivePageTable<'_> {
 
         if p2_entry.is_unused() {
             return Err(TranslateError::PageNotMapped);
+        }
+        // the entry must be a 2MiB mapping, not a pointer to a level 1 table
+        if !p2_entry.flags().contains(PageTableFlags::HUGE_PAGE) {
+            return Err(TranslateError::ParentEntryHugePage);
         }
 
         PhysFrame::from_start_address(p2_entry.addr())
